@@ -677,6 +677,50 @@ impl QueryJob {
         };
 
         let (relation, tuple) = parse_why_not_target(&input)?;
+
+        // A tuple that IS derived has no "why not": the per-clause analysis below only
+        // looks for one blocker per clause and would claim that every clause is blocked.
+        if tuple.arity() > 0 {
+            let vars: Vec<String> = (0..tuple.arity()).map(|i| format!("V{i}")).collect();
+            let probe = format!(
+                "__query__({vars}) <- {relation}({vars})",
+                vars = vars.join(", ")
+            );
+            if let Ok(rows) = storage.execute_query_with_rules_tuples_on(&kg_name, &probe) {
+                // integer literals of the target may be Int32 where the relation holds Int64
+                let same_value = |a: &Value, b: &Value| match (a, b) {
+                    (Value::Int32(x), Value::Int64(y)) | (Value::Int64(y), Value::Int32(x)) => {
+                        i64::from(*x) == *y
+                    }
+                    _ => a == b,
+                };
+                let is_derived = rows.iter().any(|row| {
+                    row.arity() == tuple.arity()
+                        && row
+                            .values()
+                            .iter()
+                            .zip(tuple.values())
+                            .all(|(a, b)| same_value(a, b))
+                });
+                if is_derived {
+                    let line = format!(
+                        "{input} IS derived. Use .why ?{input} to see its derivation."
+                    );
+                    return Ok(QueryResult {
+                        rows: vec![WireTuple::new(vec![WireValue::String(line)])],
+                        schema: vec![ColumnDef::string("explanation")],
+                        total_count: 1,
+                        truncated: false,
+                        execution_time_ms: start.elapsed().as_millis() as u64,
+                        metadata: None,
+                        switched_kg: None,
+                        proof_trees: None,
+                        timing_breakdown: None,
+                    });
+                }
+            }
+        }
+
         let query_start = std::time::Instant::now();
         let (rules, base_data) = storage
             .get_rules_and_data(&kg_name)
